@@ -372,7 +372,7 @@ def check_splitlines(ctx, n):
     exprs = []
     meta = []
     for _ in range(n):
-        ls = ["".join(ctx.rng.choice("ab c!'&;\t") for _ in range(ctx.rng.choice([0, 0, 1, 3, 6]))) for _ in range(ctx.rng.choice([1, 2, 3, 5]))]
+        ls = ["".join(ctx.rng.choice("ab c!'&;\t\x0c\x0b\x1c\x85\u2028") for _ in range(ctx.rng.choice([0, 0, 1, 3, 6]))) for _ in range(ctx.rng.choice([1, 2, 3, 5]))]
         for term, tn in (("\n", "T_LF"), ("\r\n", "T_CRLF"), ("\r", "T_CR")):
             text = term.join(ls)
             got = splitlines(text)
